@@ -1,0 +1,50 @@
+//go:build verif
+
+// Contracts for the verification machinery in /verif (comment-only; excluded from normal builds).
+// Property C22 (partial). Mode int: mathematical integers, every +,-,* carries a no-overflow obligation.
+
+package lcs
+
+// overlap trims the proposed diagonal against an accepted one. Whatever it returns as non-empty is a
+// sub-diagonal of the proposal (same diagonal X-Y, inside the proposal: so it still pairs equal elements)
+// and, when accepted as leftdown/rightup, lies strictly on that side of the existing diagonal in both
+// sequences: this is what keeps the merged lcs of fix() consistent.
+//@ func overlap
+//@   mode int
+//@   results dir, r
+//@   requires 0 <= exist.X && exist.X <= (1 << 40) && 0 <= exist.Y && exist.Y <= (1 << 40) && 0 <= exist.Len && exist.Len <= (1 << 40)
+//@   requires 0 <= prop.X && prop.X <= (1 << 40) && 0 <= prop.Y && prop.Y <= (1 << 40) && 0 <= prop.Len && prop.Len <= (1 << 40)
+//@   ensures[range]     dir == empty || dir == leftdown || dir == rightup || dir == bad
+//@   ensures[empty]     dir == empty ==> r.Len <= 0
+//@   ensures[subdiag]   dir != empty ==> r.X - r.Y == prop.X - prop.Y && prop.X <= r.X && r.X + r.Len <= prop.X + prop.Len
+//@   ensures[nonempty]  (dir == leftdown || dir == rightup) && prop.Len > 0 ==> r.Len > 0
+//@   ensures[leftdown]  dir == leftdown ==> r.X + r.Len <= exist.X && r.Y + r.Len <= exist.Y
+//@   ensures[rightup]   dir == rightup ==> exist.X + exist.Len <= r.X && exist.Y + exist.Len <= r.Y
+//@   safe
+//@   property C22
+
+// lcs_valid(l, alen, blen): the diagonals are inside both sequences, in increasing order and do not overlap
+// (what lcs.valid checks, plus the bounds).
+//@ spec lcs_valid(l lcs, alen int, blen int) bool :=
+//@      (forall i int :: 0 <= i && i < len(l) ==> 0 <= l[i].X && 0 <= l[i].Y && 0 <= l[i].Len && l[i].X + l[i].Len <= alen && l[i].Y + l[i].Len <= blen) &&
+//@      (forall i int :: 0 <= i && i+1 < len(l) ==> l[i].X + l[i].Len <= l[i+1].X && l[i].Y + l[i].Len <= l[i+1].Y)
+// diffs_ok(d, n, pa, pb): the first n diffs are well-formed, sorted, non-overlapping, and end at or before (pa, pb)
+//@ spec diffs_ok(d []Diff, pa int, pb int) bool :=
+//@      (forall k int :: 0 <= k && k < len(d) ==> 0 <= d[k].Start && d[k].Start <= d[k].End && d[k].End <= pa && 0 <= d[k].ReplStart && d[k].ReplStart <= d[k].ReplEnd && d[k].ReplEnd <= pb) &&
+//@      (forall k int :: 0 <= k && k+1 < len(d) ==> d[k].End <= d[k+1].Start && d[k].ReplEnd <= d[k+1].ReplStart)
+
+// toDiffs: for a valid lcs the differences are well-formed: inside both sequences, sorted and pairwise
+// non-overlapping in both sequences.
+//@ func (lcs).toDiffs
+//@   mode int
+//@   requires 0 <= alen && alen <= (1 << 40) && 0 <= blen && blen <= (1 << 40)
+//@   requires lcs_valid(lcs, alen, blen)
+//@   loop 0 invariant -1 <= rangeindex && rangeindex < len(lcs)
+//@   loop 0 invariant 0 <= pa && pa <= alen && 0 <= pb && pb <= blen
+//@   loop 0 invariant rangeindex >= 0 ==> pa == lcs[rangeindex].X + lcs[rangeindex].Len && pb == lcs[rangeindex].Y + lcs[rangeindex].Len
+//@   loop 0 invariant rangeindex < 0 ==> pa == 0 && pb == 0
+//@   loop 0 invariant isfresh(diffs) && allocated(diffs) && visible_unchanged(diffs)
+//@   loop 0 invariant diffs_ok(diffs, pa, pb)
+//@   ensures[wellformed] diffs_ok(result, alen, blen)
+//@   safe
+//@   property C22
